@@ -56,7 +56,8 @@ Fixpoint replace_arg (loc_prefix search : list str) (new : argd) (args : list ar
       else let '(r', b) := replace_arg loc_prefix search new r in (a :: r', b)
   end.
 
-Definition none_text (e : expr) : bool := str_eqb e (s2l "None").
+(* get_value(AnnAssign) is the value NODE (never a member of none_types) when a value is present, NoneStr when absent: a written
+   `= None` is copied like any other value *)
 
 (* visit_FunctionDef *)
 Definition visit_func (search : list str) (r : repl) (loc : list str) (args kwonly : list argd) (defaults : list expr)
@@ -65,7 +66,7 @@ Definition visit_func (search : list str) (r : repl) (loc : list str) (args kwon
     match r with
     | RAnn t _ (Some v) =>
         match idx_of t args (start_idx args) with
-        | Some idx => if (Z.of_nat (length defaults) >? idx)%Z && negb (none_text v) then list_set defaults idx v else defaults
+        | Some idx => if (Z.of_nat (length defaults) >? idx)%Z then list_set defaults idx v else defaults
         | None => defaults
         end
     | _ => defaults
